@@ -148,13 +148,9 @@ func TestDominance(t *testing.T) {
 	// the same through OpPhi is fine when the parent is the defining arm
 	m = newBase(v13)
 	x, y = m.id(), m.id()
-	lA, lB, lM := m.id()+0, uint32(0), uint32(0)
-	_ = lA
-	m = newBase(v13)
-	x, y = m.id(), m.id()
 	// ids of the diamond labels are allocated inside diamond(): predict them
 	pA, pB := m.next+1, m.next+2
-	lA, lB, lM = diamond(m, [][]uint32{enc(128, m.u32, x, m.c0, m.c1)}, [][]uint32{enc(245, m.u32, y, x, pA, m.c1, pB)})
+	lA, lB, lM := diamond(m, [][]uint32{enc(128, m.u32, x, m.c0, m.c1)}, [][]uint32{enc(245, m.u32, y, x, pA, m.c1, pB)})
 	if lA != pA || lB != pB {
 		t.Fatal("label prediction")
 	}
@@ -256,7 +252,7 @@ func TestStructuredCFG(t *testing.T) {
 	// back edge to a block without OpLoopMerge
 	m = newBase(v13)
 	loop(m, func(h, b, c, mm uint32) [][]uint32 { return [][]uint32{enc(249, b)} })
-	expectOnly(t, m.bytes(), RBackEdge)
+	expectRule(t, m.bytes(), RBackEdge)
 	// OpSelectionMerge followed by OpBranch
 	m = newBase(v13)
 	l2 := m.id()
@@ -527,7 +523,7 @@ func TestFunctionCalls(t *testing.T) {
 	ok := mk(func(m *base) uint32 { return m.c0 }, func(m *base) uint32 { return m.c1 }, func(m *base) uint32 { return m.u32 })
 	expectClean(t, ok.bytes())
 	bad := mk(func(m *base) uint32 { return m.gid }, func(m *base) uint32 { return m.c1 }, func(m *base) uint32 { return m.u32 })
-	expectOnly(t, bad.bytes(), RCall)
+	expectRule(t, bad.bytes(), RCall)
 	bad = mk(func(m *base) uint32 { return m.c0 }, func(m *base) uint32 { return m.c1 }, func(m *base) uint32 { return m.i32 })
 	expectOnly(t, bad.bytes(), RCall)
 	// returning a value of the wrong type
@@ -749,4 +745,101 @@ func TestCapabilities(t *testing.T) {
 	if len(r.Unsupported) == 0 {
 		t.Fatal("unknown opcode not reported as unsupported")
 	}
+}
+
+func TestExtraRules(t *testing.T) {
+	// helper taking ptr<function,u32>
+	withPtrFn := func(m *base) (f2 uint32) {
+		ft, p, l2 := m.id(), m.id(), m.id()
+		f2 = m.id()
+		m.types = append(m.types, enc(33, ft, m.void, m.ptrFnU))
+		helper := [][]uint32{enc(54, m.void, f2, 0, ft), enc(55, m.ptrFnU, p), enc(248, l2), enc(62, p, m.c1), enc(253), enc(56)}
+		m.fn = append(helper, m.fn...)
+		m.bodyStart += len(helper)
+		return f2
+	}
+	// passing a variable is fine; passing an access chain is not
+	m := newBase(v13)
+	f2 := withPtrFn(m)
+	v := m.id()
+	m.insertBody(enc(59, m.ptrFnU, v, scFunction), enc(57, m.void, m.id(), f2, v))
+	expectClean(t, m.bytes())
+	m = newBase(v13)
+	f2 = withPtrFn(m)
+	arr, parr, av, ac := m.id(), m.id(), m.id(), m.id()
+	m.types = append(m.types, enc(28, arr, m.u32, m.c2), enc(32, parr, scFunction, arr))
+	m.insertBody(enc(59, parr, av, scFunction), enc(65, m.ptrFnU, ac, av, m.c1), enc(57, m.void, m.id(), f2, ac))
+	expectOnly(t, m.bytes(), RCallPtr)
+	// OpSelect producing a pointer
+	m = newBase(v14)
+	v1, v2, cnd := m.id(), m.id(), m.id()
+	m.insertBody(enc(59, m.ptrFnU, v1, scFunction), enc(59, m.ptrFnU, v2, scFunction), enc(170, m.boolT, cnd, m.c0, m.c1), enc(169, m.ptrFnU, m.id(), cnd, v1, v2))
+	expectOnly(t, m.bytes(), RLogicalPtr)
+	// OpLine whose file is not an OpString
+	m = newBase(v13)
+	m.insertBody(enc(8, m.c0, 1, 1))
+	expectOnly(t, m.bytes(), RDebugString)
+	// OpKill in a compute shader
+	m = newBase(v13)
+	m.replaceTail(enc(252), enc(56))
+	expectOnly(t, m.bytes(), RExecModelLimit)
+	// control barrier with Device execution scope; atomic load with Release semantics
+	m = newBase(v13)
+	c4, c264 := m.id(), m.id()
+	m.types = append(m.types, enc(43, m.u32, c4, 4), enc(43, m.u32, c264, 264))
+	m.insertBody(enc(224, m.c1, m.c2, c264))
+	expectOnly(t, m.bytes(), RScope)
+	m = newBase(v13)
+	ac = m.id()
+	c4 = m.id()
+	m.types = append(m.types, enc(43, m.u32, c4, 4))
+	m.insertBody(enc(65, m.ptrU, ac, m.buf, m.c0), enc(227, m.u32, m.id(), ac, m.c1, c4))
+	expectOnly(t, m.bytes(), RScope)
+	// self-recursive helper
+	m = newBase(v13)
+	fr, lr := m.id(), m.id()
+	m.fn = append(m.fn, enc(54, m.void, fr, 0, m.fnVoid), enc(248, lr), enc(57, m.void, m.id(), fr), enc(253), enc(56))
+	expectOnly(t, m.bytes(), RCallGraph)
+	// diamond without OpSelectionMerge
+	m = newBase(v13)
+	a, b, mm, cnd2 := m.id(), m.id(), m.id(), m.id()
+	m.replaceTail(enc(170, m.boolT, cnd2, m.c0, m.c1), enc(250, cnd2, a, b),
+		enc(248, a), enc(249, mm), enc(248, b), enc(249, mm), enc(248, mm), enc(253), enc(56))
+	expectOnly(t, m.bytes(), RSelStructured)
+	// conditional break out of a loop without a merge is fine (covered by the loop in TestStructuredCFG)
+	// two fragment outputs at the same location
+	m = newBase(v13)
+	o1, o2, pOut := m.id(), m.id(), m.id()
+	m.eps[0] = enc(15, cat([]uint32{4, m.main}, str("main"), []uint32{o1, o2})...)
+	m.modes = [][]uint32{enc(16, m.main, 7)}
+	m.annos = append(m.annos, enc(71, o1, decLocation, 0), enc(71, o2, decLocation, 0))
+	m.types = append(m.types, enc(32, pOut, scOutput, m.v4f), enc(59, pOut, o1, scOutput), enc(59, pOut, o2, scOutput))
+	m.fn = [][]uint32{enc(54, m.void, m.main, 0, m.fnVoid), enc(248, m.entryLabel), enc(253), enc(56)}
+	expectOnly(t, m.bytes(), RIOUnique)
+	// Block nested in Block
+	m = newBase(v13)
+	s2, ps2, v2b := m.id(), m.id(), m.id()
+	inner := m.id()
+	m.annos = append(m.annos, enc(71, s2, decBlock), enc(71, inner, decBlock), enc(72, s2, 0, decOffset, 0), enc(72, inner, 0, decOffset, 0),
+		enc(71, v2b, decDescriptorSet, 0), enc(71, v2b, decBinding, 4))
+	m.types = append(m.types, enc(30, inner, m.u32), enc(30, s2, inner), enc(32, ps2, scStorageBuffer, s2), enc(59, ps2, v2b, scStorageBuffer))
+	expectOnly(t, m.bytes(), RBlockDeco)
+	// OpCopyMemory between different pointee types
+	m = newBase(v13)
+	pi, vi, vu := m.id(), m.id(), m.id()
+	m.types = append(m.types, enc(32, pi, scFunction, m.i32))
+	m.insertBody(enc(59, pi, vi, scFunction), enc(59, m.ptrFnU, vu, scFunction), enc(63, vi, vu))
+	expectOnly(t, m.bytes(), RCopyMemory)
+	// ConvertFToU with a signed result
+	m = newBase(v13)
+	fc := m.id()
+	m.types = append(m.types, enc(43, m.f32, fc, 0))
+	m.insertBody(enc(109, m.i32, m.id(), fc))
+	expectOnly(t, m.bytes(), RConvert)
+	// initialised StorageBuffer variable
+	m = newBase(v13)
+	s5, ps5, v5, k5 := m.id(), m.id(), m.id(), m.id()
+	m.annos = append(m.annos, enc(71, s5, decBlock), enc(72, s5, 0, decOffset, 0), enc(71, v5, decDescriptorSet, 0), enc(71, v5, decBinding, 6))
+	m.types = append(m.types, enc(30, s5, m.u32), enc(46, s5, k5), enc(32, ps5, scStorageBuffer, s5), enc(59, ps5, v5, scStorageBuffer, k5))
+	expectOnly(t, m.bytes(), RVariable)
 }
